@@ -3,9 +3,12 @@
    Model: Model/C13_compact.v (compaction of _create_return, _rows_for_secondaries, the NaN-padded bin
    matrix of collapse, expand, concat_collocations).  Data values are an arbitrary type A: a scalar, or the
    whole vector / cube of a point for variables with extra dimensions (theorem bins_lanes); a NaN padding
-   cell is None, so "NaN-ignoring" means "a function of (somes column)". *)
-From Coq Require Import Arith List Bool.
-From Typhon Require Import Model.C13_compact Proofs.C13_compact.
+   cell is None, so "NaN-ignoring" means "a function of (somes column)".
+   Model/C13_stats.v: the three default collapser functions as functions on `option R` scalars (None = NaN, the
+   padding and NaNs in the data alike), the table {**defaults, **custom} and calls of collapse. *)
+From Coq Require Import String.
+From Coq Require Import Arith List Bool Reals Permutation.
+From Typhon Require Import Model.C13_compact Proofs.C13_compact Model.C13_stats Proofs.C13_stats.
 Import ListNotations.
 
 (* ---- Collocations/pairs after the compaction: valid indices into the stored points ... *)
@@ -77,6 +80,91 @@ Theorem collapse_any_collapser : forall (A R : Type) (stat : list A -> R) (d : A
     = stat (gather d (partner_points refrow otherrow c) vals).
 Proof. intros A R. exact collapse_stat_l. Qed.
 
+(* ---- the statistics clause itself.  collapse(data, reference) without custom functions, on a compact dataset d whose
+   two groups carry a variable with values in A (a scalar, or all lanes of the extra dimensions of a point);
+   rs = false: reference = primary (the default), rs = true: reference = secondary; f reads one lane (any index tuple
+   of the extra dimensions) as `option R`, None = NaN.  For every stored reference point c the output has exactly the
+   fields mean, std, number, and they are the arithmetic mean (sum / n), the population standard deviation
+   (sqrt (sum of squared deviations from that mean / n), numpy's ddof = 0) and the number n of the non-NaN values pv
+   of lane f of the partner points of c -- NaN, NaN, 0 when there is none. *)
+Theorem collapse_mean_std_number :
+  forall (A : Type) (f : A -> option R) (dflt : A) (d : cds A A) (rs : bool) (c : nat),
+  compact_ok d -> c < n_ref d rs ->
+  let res := collapse_call f dflt (mk_call d rs []) in
+  let pv := somes (map f (gather dflt (partner_points (ref_row d rs) (other_row d rs) c) (other_vals d rs))) in
+  map fst res = ["mean"; "std"; "number"]%string /\
+  field "mean" c res = Some (Fl (match pv with [] => None | _ => Some (sumR pv / INR (length pv))%R end)) /\
+  field "std" c res
+    = Some (Fl (match pv with
+                | [] => None
+                | _ => Some (sqrt (sumR (map (fun x => (x - mean pv) * (x - mean pv))%R pv) / INR (length pv)))
+                end)) /\
+  field "number" c res = Some (Cnt (length pv)).
+Proof. intros A. exact collapse_mean_std_number_l. Qed.
+
+(* `mean` and `pstd` are what their names say: the deviations from the mean cancel, the standard deviation is not
+   negative and vanishes exactly for constant values *)
+Theorem mean_std_laws : forall v : list R, v <> [] ->
+  sumR (map (fun x => x - mean v)%R v) = 0%R /\ (0 <= pstd v)%R /\
+  (pstd v = 0%R <-> Forall (fun x => x = mean v) v).
+Proof. intros v Hv. split; [exact (mean_centre v Hv)|]. split; [exact (pstd_nonneg v)|exact (pstd_zero_iff v Hv)]. Qed.
+
+(* every reference point has a partner, and its fields are NaN / NaN / 0 exactly when lane f of all of its partner
+   points is NaN *)
+Theorem collapse_nan_iff_all_partners_nan :
+  forall (A : Type) (f : A -> option R) (dflt : A) (d : cds A A) (rs : bool) (c : nat),
+  compact_ok d -> c < n_ref d rs ->
+  let res := collapse_call f dflt (mk_call d rs []) in
+  let partners := gather dflt (partner_points (ref_row d rs) (other_row d rs) c) (other_vals d rs) in
+  partners <> [] /\
+  (field "mean" c res = Some (Fl None) <-> Forall (fun a => f a = None) partners) /\
+  (field "std" c res = Some (Fl None) <-> Forall (fun a => f a = None) partners) /\
+  (field "number" c res = Some (Cnt 0) <-> Forall (fun a => f a = None) partners).
+Proof. intros A. exact collapse_nan_iff_l. Qed.
+
+(* the order of the pairs (the rows of a bin follow it) does not matter: any rearrangement of the pair list that
+   keeps the multiplicities leaves mean, std and number of every reference point unchanged *)
+Theorem collapse_pair_order_invariant :
+  forall (A : Type) (f : A -> option R) (d : A) refrow otherrow refrow' otherrow' (vals : list A) n c name,
+  length refrow = length otherrow -> length refrow' = length otherrow' ->
+  Permutation (combine refrow otherrow) (combine refrow' otherrow') ->
+  row_ok n refrow -> c < n -> In name default_names ->
+  field name c (collapse_var f d refrow otherrow vals []) = field name c (collapse_var f d refrow' otherrow' vals []).
+Proof. intros A. exact collapse_pair_order_l. Qed.
+
+(* <var>_number (and with it the NaN-ness of mean and std) can be computed from validity flags alone: any
+   h, g with "g (h a) is NaN exactly when f a is" count the same -- this is what run_counts evaluates for the
+   correspondence (h = the flags of all lanes of a point, g = mask_lane j) *)
+Theorem collapse_number_by_mask :
+  forall (A B X Y : Type) (f : A -> option X) (g : B -> option Y) (h : A -> B) (d : A) refrow otherrow (vals : list A) n c,
+  (forall a, f a = None <-> g (h a) = None) ->
+  length refrow = length otherrow -> row_ok n refrow -> c < n ->
+  count (map (cell_view f) (column (collapse_model d refrow otherrow vals) c))
+  = count (map (cell_view g) (column (collapse_model (h d) refrow otherrow (map h vals)) c)).
+Proof. intros A B X Y. exact collapse_number_by_mask_l. Qed.
+
+(* ---- collapse is a function of its arguments: whatever calls came before (h1 / h2) or come after (t1 / t2) in
+   the process, a call a = (dataset, reference, custom functions) returns collapse_call a; its fields are the
+   names {**defaults, **custom} of its own custom functions, and exactly mean, std, number when it has none *)
+Theorem collapse_call_independent :
+  forall (A : Type) (f : A -> option R) (dflt : A) (h1 t1 h2 t2 : list (call A)) (a : call A),
+  nth (length h1) (run_calls f dflt (h1 ++ a :: t1)) [] = nth (length h2) (run_calls f dflt (h2 ++ a :: t2)) [] /\
+  nth (length h1) (run_calls f dflt (h1 ++ a :: t1)) [] = collapse_call f dflt a /\
+  map fst (collapse_call f dflt a) = collapser_names (map fst (c_custom a)) /\
+  (c_custom a = [] -> map fst (collapse_call f dflt a) = ["mean"; "std"; "number"]%string).
+Proof. intros A. exact collapse_call_independent_l. Qed.
+
+(* a custom function replaces the default of its own name only (and is applied to the NaN-padded columns); every
+   other field is the one of the call without custom functions *)
+Theorem collapse_custom_keeps_defaults :
+  forall (A : Type) (f : A -> option R) (d : A) refrow otherrow (vals : list A) (custom : dict collapser) name,
+  (lookup name custom = None ->
+     lookup name (collapse_var f d refrow otherrow vals custom) = lookup name (collapse_var f d refrow otherrow vals [])) /\
+  (forall g, lookup name custom = Some g ->
+     lookup name (collapse_var f d refrow otherrow vals custom)
+     = Some (map (fun col => g (map (cell_view f) col)) (collapse_model d refrow otherrow vals))).
+Proof. intros A. exact collapse_custom_l. Qed.
+
 (* ---- expand: one row per pair with the primary and the secondary value of that pair *)
 Theorem expand_rows : forall (A B : Type) (da : A) (db : B) (d : cds A B) k,
   length (prow d) = length (srow d) -> k < length (prow d) ->
@@ -124,6 +212,30 @@ Proof.
     try (vm_compute; repeat constructor).
 Qed.
 
+(* ---- non-vacuity of the statistics theorems: two lanes with NaNs, one of them all-NaN for a reference point, both
+   references; a custom function next to the defaults *)
+Example nonvacuous_stats :
+  let d := mk_cds [0; 0; 1; 2; 1; 0] [0; 1; 0; 0; 2; 2]
+                  [[Some 5; Some 1]; [Some 6; None]; [Some 7; Some 2]]%R
+                  [[Some 1; None]; [Some 3; None]; [None; None]]%R in
+  compact_ok d /\
+  (* primary 0 has the partners 0, 1, 2: lane 0 holds 1, 3, NaN; lane 1 holds NaN only *)
+  field "mean" 0 (collapse_call (lane 0) [] (mk_call d false [])) = Some (Fl (Some 2%R)) /\
+  field "std" 0 (collapse_call (lane 0) [] (mk_call d false [])) = Some (Fl (Some 1%R)) /\
+  field "number" 0 (collapse_call (lane 0) [] (mk_call d false [])) = Some (Cnt 2) /\
+  field "mean" 0 (collapse_call (lane 1) [] (mk_call d false [])) = Some (Fl None) /\
+  field "number" 0 (collapse_call (lane 1) [] (mk_call d false [])) = Some (Cnt 0) /\
+  (* secondary 2 has the partners 1, 0 (in pair order): lane 0 holds 6, 5 *)
+  field "mean" 2 (collapse_call (lane 0) [] (mk_call d true [])) = Some (Fl (Some (11 / 2)%R)) /\
+  field "number" 2 (collapse_call (lane 1) [] (mk_call d true [])) = Some (Cnt 1).
+Proof. exact nonvacuous_stats_l. Qed.
+
+Example nonvacuous_names :
+  collapser_names ["rec"%string] = ["mean"; "std"; "number"; "rec"]%string /\
+  collapser_names ["std"%string] = ["mean"; "std"; "number"]%string /\
+  collapser_names [] = default_names.
+Proof. repeat split. Qed.
+
 Print Assumptions compact_valid.
 Print Assumptions compact_surjective.
 Print Assumptions compact_same_points.
@@ -134,6 +246,13 @@ Print Assumptions bins_height.
 Print Assumptions bins_lanes.
 Print Assumptions collapse_exact.
 Print Assumptions collapse_any_collapser.
+Print Assumptions collapse_mean_std_number.
+Print Assumptions mean_std_laws.
+Print Assumptions collapse_nan_iff_all_partners_nan.
+Print Assumptions collapse_pair_order_invariant.
+Print Assumptions collapse_number_by_mask.
+Print Assumptions collapse_call_independent.
+Print Assumptions collapse_custom_keeps_defaults.
 Print Assumptions expand_rows.
 Print Assumptions expand_length.
 Print Assumptions expand_concat.
